@@ -53,6 +53,9 @@ try:
                 rp = viol[0].split("replay=")[1].split()[0]
                 try:
                     rj = json.loads(Path(rp).read_text())
+                    if rj.get("kind") == "failing-input" and rj.get("case") is not None:
+                        # keep the failing input: it becomes a corpus case of that check (runs first on every run)
+                        (sd / f"replay_{c}.json").write_text(json.dumps({"check": c, "key": rj.get("key"), "what": rj.get("what"), "case": rj.get("case")}, indent=1))
                     info["replay_kind"] = rj.get("kind")
                     info["replay_what"] = (rj.get("what") or "")[:300]
                     info["replay_case"] = json.dumps(rj.get("case"))[:600] if rj.get("case") else None
